@@ -31,7 +31,8 @@ def doCompile (input : GoStr) : String := Id.run do
   for e in c.entries do
     sb := sb ++ s!"{e.sl},{e.sc},{e.tl},{e.tc};"
   let emitS := match c.emitErr with | none => "-" | some e => toHex e.toUTF8.toList
-  return s!"{showOutcome c.lexOutcome} {errS} {toHex c.text}X {sb}X {emitS}"
+  let chk := (if allDisj disjS c.frags then "S" else "s") ++ (if allDisj disjT c.frags then "T" else "t")
+  return s!"{showOutcome c.lexOutcome} {errS} {toHex c.text}X {sb}X {emitS} {chk}"
 
 /-- `R <filehex> <namehex> S:<k>=<v>,... B:<k>=<0|1>,... L:<k>=<v>|<v>,...`  (all hex) -/
 def parseEnv (fields : List String) : Env := Id.run do
